@@ -268,6 +268,8 @@ type c38History struct {
 	steps  []c38Step
 	desync bool
 	abort  string
+	// scripted histories (error matrix) are not generated from the model
+	scripted bool
 }
 
 func (h *c38History) add(sig, what string, desync bool, mask string) {
@@ -791,58 +793,10 @@ func runC38History(ctx context.Context, r *vkit.Run, st *c38Stacks, base *vkit.R
 		if op == nil {
 			continue
 		}
-		h.excludeByDesign(op)
-		exp := m.Predict(op)
-		opA := h.translate(op)
-		r.Count("op:"+string(op.Kind), 1)
-		r.Count("steps", 1)
-		if isRead(op.Kind) {
-			ra := vmodel.Exec(ctx, st.a, opA)
-			r0 := vmodel.Exec(ctx, st.a0, opA)
-			rb := vmodel.Exec(ctx, st.b, op)
-			h.steps = append(h.steps, c38Step{N: step, Op: op.String(), ResA: resText(ra), ResB: resText(rb)})
-			if k := strictKind(ra.Err); k != "" {
-				r.Count("errkind_via_client:"+k, 1)
-			}
-			h.compareRead(op, ra, r0)
-			if (strictKind(r0.Err) == "") != (strictKind(rb.Err) == "") {
-				h.abort = fmt.Sprintf("step %d: direct reads of the two storages disagree (%s vs %s) although every write effect was compared", step, resText(r0), resText(rb))
-			}
-			continue
-		}
-		rb := vmodel.Exec(ctx, st.b, op)
-		ra := vmodel.Exec(ctx, st.a, opA)
-		ka, kb := strictKind(ra.Err), strictKind(rb.Err)
-		h.steps = append(h.steps, c38Step{N: step, Op: op.String(), ResA: resText(ra), ResB: resText(rb)})
-		if ka != "" {
-			r.Count("errkind_via_client:"+ka, 1)
-		}
-		if kb != "" {
-			r.Count("errkind_direct:"+kb, 1)
-		}
-		if ka != kb {
-			desync := (ka == "") != (kb == "")
-			mask := ""
-			if desync {
-				mask = failureMask(op)
-			}
-			h.add(fmt.Sprintf("s3client-diverges:%s:error-kind:%s->%s", op.Kind, orOK(kb), orOK(ka)), fmt.Sprintf("%s: via S3 client %s (%s), direct %s (%s)", op, orOK(ka), errDetail(ra.Err), orOK(kb), errDetail(rb.Err)), desync, mask)
-			if desync {
-				break
-			}
-		}
-		if (exp.Kind == "") != (kb == "") {
-			h.abort = fmt.Sprintf("step %d: reference model and the directly driven storage disagree on %s (model %q, storage %q) - not a C38 matter", step, op, exp.Kind, kb)
+		if _, stop := h.step(step, op, m); stop {
 			break
 		}
-		if kb != "" {
-			r.Count("failing_writes_agreeing", 1)
-			continue
-		}
-		h.compareWriteResult(op, ra, rb)
-		m.Apply(op, rb)
-		h.afterWrite(op, m)
-		if !h.desync && (step+1)%20 == 0 {
+		if !h.desync && h.abort == "" && (step+1)%20 == 0 {
 			h.probes(prng, m, false)
 		}
 	}
@@ -866,6 +820,74 @@ func runC38History(ctx context.Context, r *vkit.Run, st *c38Stacks, base *vkit.R
 	}
 	c38Cleanup(ctx, st, prof.Buckets)
 	return h, w
+}
+
+// step executes one operation on both stacks and compares; it returns the
+// result of the directly driven storage and whether the history must end.
+func (h *c38History) step(step int, op *vmodel.Op, m *vmodel.Model) (*vmodel.Result, bool) {
+	ctx, st, r := h.ctx, h.st, h.r
+	h.excludeByDesign(op)
+	exp := m.Predict(op)
+	opA := h.translate(op)
+	r.Count("op:"+string(op.Kind), 1)
+	r.Count("steps", 1)
+	if isRead(op.Kind) {
+		ra := vmodel.Exec(ctx, st.a, opA)
+		r0 := vmodel.Exec(ctx, st.a0, opA)
+		rb := vmodel.Exec(ctx, st.b, op)
+		h.steps = append(h.steps, c38Step{N: step, Op: op.String(), ResA: resText(ra), ResB: resText(rb)})
+		if k := strictKind(ra.Err); k != "" {
+			r.Count("errkind_via_client:"+k, 1)
+		}
+		h.compareRead(op, ra, r0)
+		if (strictKind(r0.Err) == "") != (strictKind(rb.Err) == "") {
+			h.abort = fmt.Sprintf("step %d: direct reads of the two storages disagree (%s vs %s) although every write effect was compared", step, resText(r0), resText(rb))
+			return rb, true
+		}
+		return rb, false
+	}
+	rb := vmodel.Exec(ctx, st.b, op)
+	ra := vmodel.Exec(ctx, st.a, opA)
+	ka, kb := strictKind(ra.Err), strictKind(rb.Err)
+	h.steps = append(h.steps, c38Step{N: step, Op: op.String(), ResA: resText(ra), ResB: resText(rb)})
+	if ka != "" {
+		r.Count("errkind_via_client:"+ka, 1)
+	}
+	if kb != "" {
+		r.Count("errkind_direct:"+kb, 1)
+	}
+	if ka != kb {
+		desync := (ka == "") != (kb == "")
+		mask := ""
+		if desync {
+			mask = failureMask(op)
+		}
+		h.add(fmt.Sprintf("s3client-diverges:%s:error-kind:%s->%s", op.Kind, orOK(kb), orOK(ka)), fmt.Sprintf("%s: via S3 client %s (%s), direct %s (%s)", op, orOK(ka), errDetail(ra.Err), orOK(kb), errDetail(rb.Err)), desync, mask)
+		if desync {
+			return rb, true
+		}
+	}
+	if (exp.Kind == "") != (kb == "") {
+		if h.scripted {
+			// scripted error matrix: the storage decides, the model is only bookkeeping
+			if kb == "" {
+				r.Count("scripted_requests_succeeding_where_the_model_expects_failure(not applied)", 1)
+			} else {
+				r.Count("failing_writes_agreeing", 1)
+			}
+			return rb, false
+		}
+		h.abort = fmt.Sprintf("step %d: reference model and the directly driven storage disagree on %s (model %q, storage %q) - not a C38 matter", step, op, exp.Kind, kb)
+		return rb, true
+	}
+	if kb != "" {
+		r.Count("failing_writes_agreeing", 1)
+		return rb, false
+	}
+	h.compareWriteResult(op, ra, rb)
+	m.Apply(op, rb)
+	h.afterWrite(op, m)
+	return rb, h.desync
 }
 
 // failureMask names the feature to switch off when an operation succeeds on one
@@ -923,7 +945,7 @@ func runC38(tier, replay string) {
 	r.SetExtra("excluded_operations", []string{"append (ErrNotImplemented by design)", "copy with byte range (ErrNotImplemented by design)", "transition by version id (ErrNotImplemented by design)"})
 	nh, steps := r.N(24, 300), r.N(50, 70)
 	masks := maskSet{}
-	only := -1
+	only := -2
 	if replay != "" {
 		var w c38Witness
 		seed, t := loadReplay(replay, &w)
@@ -936,15 +958,21 @@ func runC38(tier, replay string) {
 	base := r.Rand()
 	reported := map[string]bool{}
 	examples := map[string]string{}
-	for i := 0; i < nh || (only >= 0 && i <= only); i++ {
-		if only >= 0 && i != only {
+	for i := c38MatrixIndex; i < nh || (only >= 0 && i <= only); i++ {
+		if replay != "" && i != only {
 			continue
 		}
 		cur := maskSet{}
 		for k := range masks {
 			cur[k] = true
 		}
-		h, w := runC38History(ctx, r, st, base, i, steps, cur, replay != "")
+		var h *c38History
+		var w c38Witness
+		if i == c38MatrixIndex {
+			h, w = runC38Matrix(ctx, r, st, cur)
+		} else {
+			h, w = runC38History(ctx, r, st, base, i, steps, cur, replay != "")
+		}
 		r.Eval("")
 		prev := ""
 		for _, s := range h.steps {
